@@ -133,7 +133,11 @@ func (d *driver) Reset(env *core.Env, b *core.Behaviour) error {
 	if err != nil {
 		return err
 	}
-	l, err := labFor(env, ts, int64(env.OptInt("conc", 1)))
+	conc := int64(env.OptInt("conc", 1))
+	if c, ok := b.Meta["conc"]; ok {
+		conc = int64(core.ToInt(c))
+	}
+	l, err := labFor(env, ts, conc)
 	if err != nil {
 		return err
 	}
